@@ -92,3 +92,22 @@ for sid, text in needs3.items():
     if os.path.exists(f):
         m = json.load(open(f)); m["needs_to_manifest"] = text; json.dump(m, open(f, "w"), indent=1, ensure_ascii=False)
 print("ok3")
+needs4 = {
+ "C05e-1": "rare coincidence: a 'do not duplicate generated productions' guard compares source, comment and values but not the id; two systems with exactly the same uncovered use in every step (twin heat pumps): one gets no completion",
+ "C05e-2": "specific text: header detection became to_lowercase().contains(\"vector\"); any data line whose comment contains the word 'vector' is dropped silently",
+ "C06e-1": "two-command sequence: systems whose AUX lines all carry the automatic comment are skipped; a file saved with --oc and read back keeps its auxiliaries on NEPB",
+ "C06e-2": "rare coincidence: output services keyed by annual output in a BTreeMap; two services with exactly equal non-zero annual output collapse and one share is lost",
+ "C10e-1": "hash order + rare shape: the single-service shortcut also fires when only one service has non-zero use and there is no non-zero SALIDA, but picks from the unfiltered HashSet; needs whole all-zero CONSUMO lines",
+ "C10e-2": "line order + rare shape: a DEMANDA line is length-checked against the components read before it; a demand series of another length (one annual value) is accepted first in the file and refused later in it",
+ "C16e-1": "option value: StrictUtf8 removed and -c read with value_of_os; -f/-a/-k/--red values that are not valid UTF-8 still panic in clap",
+ "C16e-2": "specific byte position: Display for EpbdError cuts the echoed detail with &detail[..256]; an error that echoes a line longer than 256 bytes with a multi-byte character across byte 256 panics when displayed",
+ "C17e-1": "specific length: XML value lists wrapped every 1024 values and joined without the comma; only series longer than 1024 steps (hourly data) are affected — caught by the thorough tier only (quick tier has <= 12 steps)",
+ "C17e-2": "specific key and text: an identification comment <!-- {Name} --> built from the metadata key 'Name'; a value containing '--' makes the XML ill-formed",
+ "C18e-1": "rare coincidence: completion skipped when the declared annual production >= annual use, decided on f32 sums; a production with the use's annual total in another profile is not completed, and the decision can flip after 2-decimal printing",
+ "C18e-2": "disk history with exact content: writefile skips rewriting when the existing file starts with the new content (read_exact of the new length); a longer earlier output that begins the same keeps its stale tail",
+}
+for sid, text in needs4.items():
+    f = "/verif/seeded/%s/meta.json" % sid
+    if os.path.exists(f):
+        m = json.load(open(f)); m["needs_to_manifest"] = text; json.dump(m, open(f, "w"), indent=1, ensure_ascii=False)
+print("ok4")
